@@ -1,9 +1,16 @@
 ------------------------------ MODULE MCRunner ------------------------------
 EXTENDS Runner
 NoWeaken == {}
+AllVals == {"valid", "alt", "invalid"}
+TwoVals == {"valid", "invalid"}
+OneVal == {"valid"}
+AllQuorums == {"q1", "q2", "all"}
+TwoQuorums == {"q1", "q2"}
+OneQuorum == {"q1"}
 WNoHeight == {"noHeightCheck"}
 WNoPrev == {"noPrevDecided"}
 WEveryDecided == {"noPrevDecided", "noCtrlPrevDecided"}
 WNoRevalidate == {"noRevalidate"}
 WNoRoute == {"noRouteCheck"}
+WPrevFromContainer == {"prevDecidedFromContainer"}
 =============================================================================
